@@ -54,6 +54,11 @@ func backendOps() []raceOp {
 
 func newRaceBackend(fl string, strategy int) *raceEnv {
 	conf := BConf{TTL: int64(time.Hour), Jitter: 0, Strategy: strategy, CountLimit: 8, EvictFrac: 0.3, DelAfter: int64(time.Minute), Name: "c"}
+	if strategy == 1 {
+		// variant: UnlimitedTTL configuration (per-call TTLs switch the delete-expired job on)
+		conf.TTL, conf.Strategy = -1, 0
+	}
+
 	e := &raceEnv{b: NewBackend(fl, conf.Config(NewStats())), fl: fl}
 	ctx := context.Background()
 
@@ -104,7 +109,7 @@ func TestC16(t *testing.T) {
 	ops := backendOps()
 
 	for _, fl := range Flavours {
-		for strategy := 0; strategy < 3; strategy += 2 { // EvictMostExpired and LFU (counter bookkeeping on reads)
+		for strategy := 0; strategy < 3; strategy++ { // EvictMostExpired, UnlimitedTTL variant, LFU (counter bookkeeping on reads)
 			for i := range ops {
 				for j := i; j < len(ops); j++ {
 					env := newRaceBackend(fl, strategy)
@@ -179,12 +184,17 @@ func TestC16(t *testing.T) {
 		{"AddLabels", func(e *raceEnv, g, i int) { e.idx.AddLabels(fmt.Sprintf("n%d", i%3), []byte(fmt.Sprintf("k%d", i%6)), "A", "B") }},
 		{"AddCache", func(e *raceEnv, g, i int) { e.idx.AddCache(fmt.Sprintf("n%d", i%3), e.b.Deleter()) }},
 		{"InvalidateByLabels", func(e *raceEnv, g, i int) { _, _ = e.idx.InvalidateByLabels(ctx, "A") }},
+		{"InvalidateFailing", func(e *raceEnv, g, i int) { _, _ = e.idx.InvalidateByLabels(ctx, "A", "B") }},
 	}
 
 	for i := range idxOps {
 		for j := i; j < len(idxOps); j++ {
 			env := newRaceBackend(FlSharded, 0)
 			env.idx = cache.NewInvalidationIndex(env.b.Deleter())
+			if idxOps[i].Name == "InvalidateFailing" || idxOps[j].Name == "InvalidateFailing" {
+				env.idx.AddCache("n1", failingDeleter{})
+			}
+
 			marker("Index", idxOps[i].Name, idxOps[j].Name)
 			runPair(idxOps[i], idxOps[j], env, iters)
 			env.b.Close()
@@ -200,3 +210,7 @@ func TestC16(t *testing.T) {
 
 	fmt.Fprintf(os.Stderr, "\nC16DONE %d\n", pairs)
 }
+
+type failingDeleter struct{}
+
+func (failingDeleter) Delete(ctx context.Context, key []byte) error { return errOutage }
